@@ -63,6 +63,12 @@ static ld tiny_of(int nt)
     return (nt == NT_F) ? std::ldexp(1.0L, -126 + 30) : (nt == NT_D) ? std::ldexp(1.0L, -1022 + 60) : std::ldexp(1.0L, -16382 + 70);
 }
 
+// the smallest subnormal of the type: the absolute rounding error of anything near zero
+static ld denorm_of(int nt)
+{
+    return (nt == NT_F) ? std::ldexp(1.0L, -149) : (nt == NT_D) ? std::ldexp(1.0L, -1074) : std::ldexp(1.0L, -16445);
+}
+
 static ld huge_of(int nt)
 {
     // 2^-8 of the largest finite number of the type
@@ -129,6 +135,8 @@ void absorb(RunOut const& out, Report& rep)
     for (auto const& t : out.rank_texts) rep.hash.str(t);
     rep.hash.str(out.cout_text);
     if (out.stalls != 0) rep.faults["stall-rank"] += out.stalls;
+    if (out.fs_yields != 0) rep.faults["descheduled-before-file-system-call"] += out.fs_yields;
+    rep.hash.u64(out.fs_yields);
     if (out.reorders != 0) rep.faults["arrival-reorder"] += out.reorders;
 }
 
@@ -272,7 +280,10 @@ void oracle_c02(Plan const& p, RunCtl const& ctl, std::vector<u64> const& seg_ca
                 ld const sqw = round_to(p.nt, sq * w);
                 for (std::size_t j = 0; j != adj.size(); ++j)
                 {
-                    ld const t = c.arena[r.off_d + j] * sqw;
+                    // the entry of a disabled channel is never written by a map that fills in the enabled
+                    // channels only: whatever an earlier point or iteration left there is not a density
+                    bool const unwritten = c.cmap_sparse && j < rv.weights.size() && rv.weights[j] == 0;
+                    ld const t = unwritten ? 0.0L : c.arena[r.off_d + j] * sqw;
                     adj[j] += t;
                     adjabs[j] += std::fabs(t);
                 }
@@ -388,6 +399,21 @@ void oracle_c07_invariants(Plan const& p, RunOut const& out, ChkptView const& v,
 
         if (!rv.refined.empty() && !valid_grid(rv.refined, rv.pbins, rv.pdims, why))
         {
+            if (std::getenv("HEPSIM_DUMP") != nullptr)
+            {
+                std::fprintf(stderr, "DUMP alpha=%.9Lg bins=%llu dims=%llu\n", v.alpha, (unsigned long long) rv.pbins,
+                    (unsigned long long) rv.pdims);
+                for (u64 j = 0; j != rv.pdims; ++j)
+                {
+                    std::fprintf(stderr, "dim %llu grid:", (unsigned long long) j);
+                    for (u64 b = 0; b <= rv.pbins; ++b) std::fprintf(stderr, " %.9Lg", rv.pdf[j * (rv.pbins + 1) + b]);
+                    std::fprintf(stderr, "\n data:");
+                    for (u64 b = 0; b < rv.pbins; ++b) std::fprintf(stderr, " %.9Lg", rv.adj[j * rv.pbins + b]);
+                    std::fprintf(stderr, "\n refined:");
+                    for (u64 b = 0; b <= rv.pbins; ++b) std::fprintf(stderr, " %.9Lg", rv.refined[j * (rv.pbins + 1) + b]);
+                    std::fprintf(stderr, "\n");
+                }
+            }
             rep.fail("C07", "refined-grid-invalid", key, fmt("refinement of iteration %llu: %s",
                 (unsigned long long) k, why.c_str()));
             return;
@@ -600,7 +626,7 @@ void oracle_c07_share(Plan const& p, ChkptView const& v, Report& rep)
 // -------------------------------------------------------------------------------------------------
 // C08
 
-void oracle_c08(Plan const& p, ChkptView const& v, Report& rep)
+void oracle_c08(Plan const& p, ChkptView const& v, Report& rep, u64 from)
 {
     if (p.integ != MULTI) return;
 
@@ -629,6 +655,17 @@ void oracle_c08(Plan const& p, ChkptView const& v, Report& rep)
     };
 
     std::vector<bool> disabled;
+
+    // channels the user's own weights disable stay disabled from the first iteration on, whatever
+    // happened to the checkpoint in between (text, rollback)
+    if (p.wts == 1 && !(p.scn == "durable" && p.variant == 1))
+    {
+        std::vector<ld> const uw = make_user_weights(p);
+        if (!v.results.empty() && uw.size() == v.results[0].weights.size())
+        {
+            for (ld w : uw) disabled.push_back(w == 0);
+        }
+    }
 
     for (u64 k = 0; k != v.results.size(); ++k)
     {
@@ -744,7 +781,8 @@ void oracle_c08(Plan const& p, ChkptView const& v, Report& rep)
                 return;
             }
             // the weights the next iteration really used (the MPI variants refine a local copy)
-            if (k + 1 < v.results.size() && v.results[k + 1].weights.size() == n &&
+            // (iterations before `from` ran in an earlier segment, possibly under other parameters)
+            if (k + 1 >= from && k + 1 < v.results.size() && v.results[k + 1].weights.size() == n &&
                 !(std::fabs(v.results[k + 1].weights[i] - ref[i]) <= tol * ref[i]))
             {
                 rep.fail("C08", "weights-used-not-refinement", key, fmt(
@@ -1499,7 +1537,7 @@ void oracle_c19(Plan const& p, RunCtl const& ctl, RunOut const& out, ChkptView c
                     ld const width = rv.pdf[j * (rv.pbins + 1) + b + 1] - left;
                     ld const x = left + (pos - static_cast<ld>(b)) * width;
                     ld const got = c.arena[r.off_u + j];
-                    if (!(std::fabs(got - x) <= 4 * eps * (std::fabs(x) + rv.pbins * width)))
+                    if (!(std::fabs(got - x) <= 4 * eps * (std::fabs(x) + rv.pbins * width) + 2 * denorm_of(p.nt)))
                     {
                         rep.fail("C19", "point-not-from-recorded-grid", key, fmt(
                             "iteration %llu call %llu dimension %llu: recorded grid maps %.21Lg to %.21Lg, integrand saw %.21Lg",
@@ -1558,7 +1596,7 @@ void oracle_segment(Plan const& p, RunCtl const& ctl, std::vector<u64> const& se
 {
     oracle_c02(p, ctl, seg_calls, out, after, rep);
     oracle_c07_invariants(p, out, after, rep);
-    oracle_c08(p, after, rep);
+    oracle_c08(p, after, rep, out.base);
     oracle_c09_invariant(p, out, after, rep);
     oracle_c10(p, seg_calls, out, world, rep);
     oracle_c11(p, out, after, rep);
